@@ -293,7 +293,9 @@ fn unhex(s: &str) -> Vec<u8> {
 
 fn console(puppet: &str, pargs: &[String]) {
     config::set(UIConfig { theme: Theme::None, tui_keymap: Default::default(), save_history: false });
+    let t_start = Instant::now();
     let (child, output) = vharness::dbg::spawn(puppet, pargs);
+    let t_spawn = t_start.elapsed().as_millis() as u64;
     let buf = Rc::new(RefCell::new(String::new()));
     let printer = ExternalPrinter::new(Box::new(InStringPrinter::new(buf.clone())));
     let hook_printer = ExternalPrinter::new(Box::new(InStringPrinter::new(buf.clone())));
@@ -313,7 +315,8 @@ fn console(puppet: &str, pargs: &[String]) {
     let asked = Cell::new(0u32);
     let prog: RefCell<Vec<String>> = RefCell::new(vec![]);
     let mut started = false;
-    out(&json!({"ready": true, "pid": dbg.process().pid().as_raw()}));
+    out(&json!({"ready": true, "pid": dbg.process().pid().as_raw(), "spawn_ms": t_spawn,
+        "build_ms": t_start.elapsed().as_millis() as u64 - t_spawn}));
 
     let stdin = std::io::stdin();
     for l in stdin.lock().lines() {
@@ -334,7 +337,9 @@ fn console(puppet: &str, pargs: &[String]) {
                 let _ = take_events();
                 let t0 = Instant::now();
                 // stage 1: the pure parser.  A panic here leaves the session untouched.
-                let parsed = catch(|| Command::parse(&text));
+                // the console skips empty input (src/ui/console/mod.rs: `if !command.is_empty()`)
+                let parsed = if text.is_empty() { Ok(Ok(Command::SkipInput)) } else { catch(|| Command::parse(&text)) };
+                let mut caught: Option<Value> = None;
                 let mut res = match parsed {
                     Err(_) => {
                         let p = LAST_PANIC.lock().unwrap().take().unwrap_or(json!({}));
@@ -361,7 +366,45 @@ fn console(puppet: &str, pargs: &[String]) {
                             file_view: &file_view,
                             helper: &helper,
                         };
-                        let r = h.handle_command(cmd);
+                        // Commands that only look (`var`, `bt`, `source`, `mem read` ...) cannot leave the session
+                        // half-changed: a panic there is reported and the worker goes on (a fresh worker costs
+                        // seconds); a panic of any command that resumes or changes the session ends the worker.
+                        let read_only = {
+                            use bugstalker::ui::command::{frame, memory, r#async, r#break, register, thread, trigger, watch};
+                            matches!(
+                                cmd,
+                                Command::Print(_)
+                                    | Command::PrintBacktrace(_)
+                                    | Command::Frame(frame::Command::Info)
+                                    | Command::PrintSymbol(_)
+                                    | Command::Memory(memory::Command::Read(_))
+                                    | Command::Register(register::Command::Info)
+                                    | Command::Register(register::Command::Read(_))
+                                    | Command::Thread(thread::Command::Info)
+                                    | Command::Thread(thread::Command::Current)
+                                    | Command::SharedLib
+                                    | Command::SourceCode(_)
+                                    | Command::Help { .. }
+                                    | Command::Oracle(_, _)
+                                    | Command::Async(r#async::Command::ShortBacktrace)
+                                    | Command::Async(r#async::Command::FullBacktrace)
+                                    | Command::Async(r#async::Command::CurrentTask(_))
+                                    | Command::Breakpoint(r#break::Command::Info)
+                                    | Command::Watchpoint(watch::Command::Info)
+                                    | Command::Trigger(trigger::Command::Info)
+                            )
+                        };
+                        let r = if read_only {
+                            match catch(|| h.handle_command(cmd)) {
+                                Ok(r) => r,
+                                Err(_) => {
+                                    caught = LAST_PANIC.lock().unwrap().take();
+                                    Ok(())
+                                }
+                            }
+                        } else {
+                            h.handle_command(cmd)
+                        };
                         // the console runs the user program attached to the event that just fired
                         let mut prog_errs = vec![];
                         if let Some(up) = trig.take_program() {
@@ -371,9 +414,10 @@ fn console(puppet: &str, pargs: &[String]) {
                                 }
                             }
                         }
-                        let mut v = match r {
-                            Ok(()) => json!({"r": "ok", "stage": "handle", "text": clip(&buf.borrow(), 300)}),
-                            Err(e) => err_json(&e, "handle"),
+                        let mut v = match (r, caught.take()) {
+                            (_, Some(p)) => json!({"r": "panic", "stage": "handle", "msg": p["msg"], "site": p["site"], "loc": p["loc"]}),
+                            (Ok(()), None) => json!({"r": "ok", "stage": "handle", "text": clip(&buf.borrow(), 300)}),
+                            (Err(e), None) => err_json(&e, "handle"),
                         };
                         v["resuming"] = json!(resuming);
                         v["trigger_errors"] = json!(prog_errs);
@@ -664,6 +708,9 @@ fn dap(puppet: &str) {
                             res["r"] = json!(if r["success"] == true { "ok" } else { "error" });
                             res["text"] = json!(clip(r["message"].as_str().unwrap_or(""), 200));
                             res["body_keys"] = json!(r["body"].as_object().map(|o| o.keys().cloned().collect::<Vec<_>>()));
+                            if req["want_body"].as_bool().unwrap_or(false) {
+                                res["body"] = r["body"].clone();
+                            }
                         }
                         None => res["r"] = json!("noresponse"),
                     }
